@@ -7,6 +7,8 @@ from __future__ import annotations
 
 from dataclasses import dataclass, field
 
+from collections import Counter
+
 import numpy as np
 
 from . import geom
@@ -35,11 +37,17 @@ HOSTILE = [
 ]
 
 
+PRESENTATION = Counter()
+
+
 def species_objects(names, rng=None, mode='mixed'):
     """pymatgen Species / Element objects for symbol names."""
     from pymatgen.core import Element, Species
 
     OX = {'Li': 1, 'Na': 1, 'Ag': 1, 'S': -2, 'O': -2, 'P': 5, 'Si': 4, 'B': 3, 'H': 1}
+    if mode == 'mixed' and rng is not None and rng.uniform() < 0.15:
+        mode = 'valence'
+        PRESENTATION['species_lists_with_per_atom_variants_of_a_symbol'] += 1
     if mode == 'valence':
         # mixed valence: every atom gets its own variant of its symbol (Element, neutral or charged Species)
         out = []
@@ -60,18 +68,39 @@ def species_objects(names, rng=None, mode='mixed'):
     return out
 
 
-def make_trajectory(matrix, species, coords, time_step=1e-15, metadata=None, **kw):
+def make_trajectory(matrix, species, coords, time_step=1e-15, metadata=None, presentation='auto', **kw):
+    """Trajectory from arrays.
+
+    presentation='auto': the way the same data is handed over varies deterministically with the data
+    (CRC of the coordinates): memory layout of the coordinate array (C order, Fortran order, an
+    axis-permuted view) and, for a fifth of the position-mode inputs, the object is left in displacement
+    representation (as after any displacement-based query).  presentation='plain': C order, as given.
+    """
+    import zlib
+
     from gemdat import Trajectory
     from pymatgen.core import Lattice
 
-    return Trajectory(
+    c = np.array(coords, dtype=float, order='C')
+    crc = zlib.crc32(c.tobytes()) if presentation == 'auto' else 0
+    lay = (crc >> 3) % 4 if presentation == 'auto' and c.ndim == 3 else 0
+    if lay == 1:
+        c = np.asfortranarray(c)
+    elif lay == 2:
+        c = np.ascontiguousarray(c.transpose(2, 0, 1)).transpose(1, 2, 0)
+    PRESENTATION[f'trajectory_coords_layout:{["C", "F", "permuted_view", "C"][lay]}'] += 1
+    traj = Trajectory(
         species=list(species),
-        coords=np.array(coords, dtype=float),
+        coords=c,
         lattice=Lattice(np.array(matrix, dtype=float)),
         time_step=time_step,
         metadata=dict(metadata) if metadata is not None else {'temperature': 300.0},
         **kw,
     )
+    if presentation == 'auto' and not kw.get('coords_are_displacement') and (crc >> 7) % 5 == 0 and len(c) >= 1:
+        traj.to_displacements()
+        PRESENTATION['trajectory_left_in_displacement_representation'] += 1
+    return traj
 
 
 def random_walk(rng, T, N, max_step=0.2, drift=None, base_lo=-2.0, base_hi=3.0, p_still=0.0):
